@@ -118,9 +118,45 @@ func zeroRequired(t *rapid.T, s *core.StructSpec, v *core.SVal) {
 	}
 }
 
+// zeroSizeSpec: structs that occupy no memory (no fields, or only fields that are such structs, held
+// by value) still have a wire form, and their required fields are required like any other.
+func zeroSizeSpec(t *rapid.T) *core.StructSpec {
+	empty := &core.StructSpec{}
+	byv := func(s *core.StructSpec) *core.TypeSpec { return &core.TypeSpec{Kind: core.KStruct, Struct: s} }
+	marker := &core.StructSpec{Fields: []*core.FieldSpec{{Name: "Zq_E", ID: uint16(rapid.SampledFrom([]int{1, 2, 64, 300}).Draw(t, "zid")), Req: core.Required, Type: byv(empty)}}}
+	marker2 := &core.StructSpec{Fields: []*core.FieldSpec{{Name: "Zq_A", ID: 1, Req: core.Required, Type: byv(marker)}, {Name: "Zo_B", ID: 2, Req: core.Optional, Type: byv(empty)}}}
+	elem := marker
+	if rapid.Bool().Draw(t, "zelem2") {
+		elem = marker2
+	}
+	i32 := &core.TypeSpec{Kind: core.KI32}
+	all := []*core.FieldSpec{
+		{Name: "Z_L", ID: 1, Type: &core.TypeSpec{Kind: core.KList, Elem: byv(elem)}},
+		{Name: "Z_S", ID: 2, Type: &core.TypeSpec{Kind: core.KSet, Elem: byv(marker)}},
+		{Name: "Z_M", ID: 3, Type: &core.TypeSpec{Kind: core.KMap, Key: i32, Elem: byv(elem)}},
+		{Name: "Zq_F", ID: 4, Req: core.Required, Type: byv(marker2)},
+		{Name: "Z_P", ID: 5, Type: &core.TypeSpec{Kind: core.KList, Elem: &core.TypeSpec{Kind: core.KStruct, Struct: marker, Ptr: true}}},
+		{Name: "Z_N", ID: 6, Type: i32},
+	}
+	out := &core.StructSpec{}
+	for _, f := range all {
+		if rapid.IntRange(0, 2).Draw(t, "zkeep") > 0 {
+			out.Fields = append(out.Fields, f)
+		}
+	}
+	if len(out.Fields) == 0 {
+		out.Fields = append(out.Fields, all[0])
+	}
+	return out
+}
+
 func genC09(t *rapid.T) c09Case {
 	cfg := c09Cfg()
 	tv := genTV(cfg)(t)
+	if rapid.IntRange(0, 11).Draw(t, "zerosize") == 0 {
+		tv.S = zeroSizeSpec(t)
+		tv.V = core.GenStructVal(t, core.GenCfg{NoNil: true, CountChoices: []int{1, 2, 3}, MaxBytes: 512}, tv.S)
+	}
 	zeroRequired(t, tv.S, tv.V)
 	c := c09Case{S: tv.S, V: tv.V}
 	enc := core.RefEncode(tv.S, tv.V)
